@@ -42,15 +42,41 @@ def run(chk, prog):
         for x in A.walk(f["body"]):
             if x.get("k") == "CallExpr" and x.get("callee") in ("signal", "std::signal", "sigaction", "bsd_signal", "sysv_signal"):
                 sigs.append((f, x))
-    chk.check(len(sigs) == 1 and sigs[0][0]["qname"] == "main" and sigs[0][1]["callee"] in ("signal", "std::signal"), "R1",
+    chk.check(len(sigs) == 1 and sigs[0][0]["qname"] == "main", "R1",
               A.loc(sigs[0][0], sigs[0][1]) if sigs else mainf.where, "exactly one signal handler is installed, in main (%d installation sites)" % len(sigs),
               "signal-sites:%s" % [(f["qname"]) for f, x in sigs])
     if sigs:
         f, x = sigs[0]
         signo = A.strip(x["args"][0])
-        h = A.declref(x["args"][1])
         chk.check(signo.get("value", signo.get("const")) == 2, "R1", A.loc(f, x), "the signal is SIGINT", "signal:number:%s" % signo.get("value", signo.get("const")))
-        chk.check(h is not None and h.get("qname") == "vfps::Display::SIGINT_handler", "R1", A.loc(f, x), "the handler is Display::SIGINT_handler", "signal:handler:%s" % (h or {}).get("qname"))
+        if x["callee"] in ("signal", "std::signal", "bsd_signal"):
+            h = A.declref(x["args"][1])
+            chk.check(h is not None and h.get("qname") == "vfps::Display::SIGINT_handler", "R1", A.loc(f, x), "the handler is Display::SIGINT_handler", "signal:handler:%s" % (h or {}).get("qname"))
+        elif x["callee"] == "sigaction":
+            # struct sigaction act; act.sa_handler = H; act.sa_flags = F; sigaction(SIGINT, &act, ...)
+            a1 = A.strip(x["args"][1])
+            var = A.declref(a1["c"][0]) if a1.get("k") == "UnaryOperator" and a1.get("op") == "&" else None
+            hq, flags = None, None
+            if var is not None:
+                for y, lhs, op, rhs in A.assignments_in(f["body"]):
+                    l = A.strip(lhs)
+                    root = l
+                    while root.get("k") == "MemberExpr" and root.get("c"):
+                        root = A.strip(root["c"][0])
+                    if l.get("k") == "MemberExpr" and root.get("k") == "DeclRefExpr" and root.get("decl") == var["decl"] and op == "=":
+                        nm = l["member"]["name"]
+                        if "handler" in nm or "sigaction" in nm:
+                            hq = (A.declref(rhs) or {}).get("qname")
+                        if nm == "sa_flags":
+                            r = A.strip(rhs)
+                            flags = r.get("const", r.get("value"))
+            chk.check(hq == "vfps::Display::SIGINT_handler", "R1", A.loc(f, x), "the handler is Display::SIGINT_handler", "signal:handler:%s" % hq)
+            SA_RESTART, SA_RESETHAND = 0x10000000, 0x80000000
+            ok = isinstance(flags, int) and (flags & SA_RESTART) and not (flags & SA_RESETHAND)
+            chk.check(ok, "R1", A.loc(f, x), "sigaction flags keep the handler installed and restart interrupted system calls (SA_RESTART set, SA_RESETHAND clear; flags %s)"
+                      % (hex(flags & 0xffffffff) if isinstance(flags, int) else flags), "signal:sigaction-flags:%s" % (hex(flags & 0xffffffff) if isinstance(flags, int) else flags))
+        else:
+            chk.fail("R1", A.loc(f, x), "handler installed through %s, whose semantics are not modelled" % x["callee"], "signal:installer:%s" % x["callee"])
     hf = prog.fn("vfps::Display::SIGINT_handler")
     chk.used(hf)
     calls = [y for y in A.walk(hf["body"]) if y["k"] in ("CallExpr", "CXXMemberCallExpr", "CXXOperatorCallExpr", "CXXConstructExpr", "CXXNewExpr", "CXXDeleteExpr", "CXXThrowExpr")]
